@@ -35,6 +35,9 @@ type Gen struct {
 	// cast member's owner key (known defect: State.getProducer then resolves
 	// that owner key to the wrong producer).
 	AllowKeyOverlap bool
+	// Boost, if set, multiplies the weight of a kind for the next block (lets a
+	// check steer the mix by the live state).
+	Boost func(kind string) int
 	// Lazy producers (cast index) never sponsor a block when on duty: the view
 	// changes to the next arbiter, which is how producers become inactive.
 	Lazy map[int]bool
@@ -91,6 +94,9 @@ func (g *Gen) kindNames() []string {
 
 func (g *Gen) weight(kind string) int {
 	w := g.Kinds[kind]
+	if g.Boost != nil {
+		w *= g.Boost(kind)
+	}
 	k := g.K
 	switch kind {
 	case "register", "vote":
